@@ -131,6 +131,7 @@ def feed(c, chunks):
         except (core.Escape, core.Inconclusive, core._Abort, core.Counterexample):
             raise
         except Exception as e:
+            core.check_leak(e)
             exc = type(e).__name__
     return exc
 
